@@ -95,6 +95,11 @@ func (xp xpathImpl) resolveOperator(oper *xpath.Operator, ident string, s *Selec
 			// a leaf without a value is neither less nor greater than anything
 			return false, nil
 		}
+		if a.Format() != b.Format() {
+			// e.g. a union leaf holding a string compared with a number: values of
+			// different types have no order
+			return false, nil
+		}
 		ac, aok := a.(val.Comparable)
 		bc, bok := b.(val.Comparable)
 		if !aok || !bok {
